@@ -52,7 +52,8 @@ def gen_jobs(rng, tier):
         if c['n_mode'] in ('1',):
             c['n_mode'] = '2'
         if kind == 'repl':
-            c['weights_mode'] = rng.choice(['int', 'int', 'int0'])
+            # styles of integer weight vectors: mixed, mixed with zeros, all equal (2, 3, 5), mostly ones
+            c['weights_mode'] = ('int', 'int0', 'const', 'sparse', 'int', 'const')[(i // (3 * len(fitgen.PAIRS)) + i) % 6]
             if c['n_mode'] == 'xlarge':
                 c['n_mode'] = 'large'
         jobs.append(dict(kind=kind, case=c, sub=rng.randrange(10 ** 9)))
@@ -63,14 +64,14 @@ def gen_jobs(rng, tier):
                  weights_mode=rng.choice(['none', 'pos', 'int', 'zeros']),
                  lam_mode=rng.choice(['default', 'default', 'zero', 'big', 'mixed']),
                  constraints=False, max_terms=rng.choice([1, 2, 3]))
-        jobs.append(dict(kind=('add', 'scale')[i % 2], case=c, sub=rng.randrange(10 ** 9)))
+        jobs.append(dict(kind=('add', 'scale')[i % 2], case=c, sub=rng.randrange(10 ** 9), k=i // 2))
     return jobs
 
 
 def _build(case, pygam):
     c = dict(case)
     wm = c['weights_mode']
-    if wm == 'int0':
+    if wm in ('int0', 'const', 'sparse'):
         c['weights_mode'] = 'int'
     if c['n_mode'] == 'mid2':
         c['n_mode'] = 'mid'
@@ -407,8 +408,16 @@ def _job_rescale(job, pygam):
     return res
 
 
-def _int_weights(rs, X, with_zeros):
+def _int_weights(rs, X, with_zeros, style='int'):
     n = X.shape[0]
+    if style == 'const':
+        # every row the same weight k != 1: with a penalty this is the data stacked k times, not the unweighted fit
+        return np.full(n, float((2, 3, 5)[int(rs.integers(0, 3))]))
+    if style == 'sparse':
+        w = np.ones(n)
+        k = max(1, n // 20)
+        w[rs.choice(n, size=k, replace=False)] = float((2, 3, 4)[int(rs.integers(0, 3))])
+        return w
     w = rs.integers(1, 4, size=n).astype(float)
     if with_zeros and n >= 6:
         protect = set()
@@ -432,7 +441,7 @@ def _job_repl(job, pygam):
     X, y = b0['X'], b0['y']
     n = X.shape[0]
     rs = np.random.default_rng(job['sub'])
-    w = _int_weights(rs, X, case['weights_mode'] == 'int0')
+    w = _int_weights(rs, X, case['weights_mode'] == 'int0', style=case['weights_mode'] if case['weights_mode'] in ('const', 'sparse') else 'int')
     idx = np.repeat(np.arange(n), w.astype(int))
     f0 = _fit(b0['gam'], X, y, w)
     f1 = _fit(b1['gam'], X[idx].copy(), y[idx].copy(), None)
@@ -478,12 +487,17 @@ def _second_response(rs, X, y):
     return -0.5 * y + rs.normal(size=n)
 
 
-def _pick_factor(rs):
+def _pick_factor(rs, k=None):
+    """response factors over 24 orders of magnitude: the decades 1e-12, 1e-9, …, 1e12 (cycled through by the job
+    index, so that every run has them all), powers of two 2^-40 … 2^40, log-uniform 1e-12 … 1e12; 30 % negative"""
+    decades = (-12, -9, -6, -3, 3, 6, 9, 12)
     r = rs.random()
-    if r < 0.35:
-        c = float(2.0 ** int(rs.integers(-20, 21)))
+    if k is not None and (k < len(decades) or k % 3 == 0):
+        c = float(10.0 ** decades[k % len(decades)])
+    elif r < 0.4:
+        c = float(2.0 ** int(rs.integers(-40, 41)))
     else:
-        c = float(10 ** rs.uniform(-6, 6))
+        c = float(10 ** rs.uniform(-12, 12))
     if rs.random() < 0.3:
         c = -c
     return c
@@ -546,7 +560,7 @@ def _job_linear(job, pygam):
                    edof=(f0['edof'], f1['edof'], f2['edof']), nonident=True, c=1.0)
         y2x, c = y2, 3.0
     else:
-        c = _pick_factor(rs)
+        c = _pick_factor(rs, job.get('k'))
         f1 = _fit(b1['gam'], X, c * y, w)
         res['st1'] = f1['status']
         if f1['status'] != 'ok':
